@@ -174,6 +174,10 @@ func (g *vfGamma) viaEntry(i int, form string) string {
 			return fmt.Sprintf("SIP/2.0/UDP %s:5062;branch=z9hG4bKin1;rport%s", g.ip("10.0.2.1"), extra)
 		case "spoof":
 			return fmt.Sprintf("SIP/2.0/UDP %s:5062;rport=9;branch=z9hG4bKin1;received=1.2.3.4%s", g.ip("10.0.2.1"), extra)
+		case "spoof2":
+			return fmt.Sprintf("SIP/2.0/UDP %s:5062;received=1.2.3.4;branch=z9hG4bKin1;rport=9%s", g.ip("10.0.2.1"), extra)
+		case "spoof3":
+			return fmt.Sprintf("SIP/2.0/UDP %s:5062;received=1.2.3.4;rport;branch=z9hG4bKin1%s", g.ip("10.0.2.1"), extra)
 		case "noport":
 			return fmt.Sprintf("SIP/2.0/TCP client.example.com;branch=z9hG4bKin1%s", extra)
 		}
